@@ -305,6 +305,14 @@ def main(tier):
 
 
 def finish(c):
+    # bridge: guards_respected is PROVED from the statement-granular interleaving models (props/C15_bridge.v); the
+    # Coq-side pc -> statement tables must agree with the lock-step drivers' label tables
+    try:
+        import part_c15bridge
+        part_c15bridge.run(c)
+    except Exception:
+        import traceback
+        c.report("C15:bridge:crash", "check part c15bridge crashed", {"kind": "internal", "trace": traceback.format_exc()[-3000:]}, found_input=False)
     c.finish(
         level="proof",
         rule="static: every (type, entry method or goroutine body, location, access kind) row that tools/footprint derives from the current source is one evaluation; "
